@@ -1,5 +1,5 @@
-import Pywbem.Model.ValueMap
-open Lean Pywbem.Proto Pywbem.Model.ValueMap Pywbem.Model.IntLit
+import Pywbem.Model.ValueMapApi
+open Lean Pywbem.Proto Pywbem.Model.ValueMap Pywbem.Model.IntLit Pywbem.Model.ValueMap.Api
 
 /-! C20 driver.
   {"op":"intlit","s":cps}                         -> {"v": "dec"|null}
@@ -83,6 +83,156 @@ def handleVm (j : Json) : Json :=
                  | none => Json.null)]
   Json.mkObj (modelPart ++ [("spec", specPart)])
 
+/-! api op: the factory methods on a class description and the argument forms of tovalues/tobinary.
+  {"op":"api","cls":{"exc":name,"code":n} | {"props":[[cps,elem],…],"methods":[[cps,elem,[[cps,elem],…]],…]},
+   "call":"property"|"method"|"parameter","names":[cps(,cps)],"vd":…,"vs","scan","strs" as for "vm",
+   "args":[arg,…],"tbargs":[scalar,…]}
+  elem = {"typ":str,"quals":[[cps,qval],…]} ; qval = null | {"arr":[cps,…]} | {"scalar":cps}
+  scalar = null | {"int":"dec"} | {"cimint":"dec"} | {"bool":b} | {"str":cps} | "other" ; arg = scalar | {"list":[scalar,…]}
+  adds to the "ok" object: "args":[ret|{"exc"}], "tbargs":[{"b":bin}|{"exc"}] ; ret = null | cps | {"list":[cps,…]} -/
+
+def qvalOf (j : Json) : QVal :=
+  match j with
+  | .null => .null
+  | j =>
+    match getField j "arr" with
+    | .arr a => .arr (a.toList.filterMap jsonToChars?)
+    | _ => match getChars j "scalar" with
+      | some s => .scalar s
+      | none => .null
+
+def pairsOf {α} (f : Json → α) (j : Json) : List (List Char × α) :=
+  match j with
+  | .arr a => a.toList.filterMap (fun p => match p with
+      | .arr q => match q.toList with
+        | n :: v :: _ => (jsonToChars? n).map (fun nm => (nm, f v))
+        | _ => none
+      | _ => none)
+  | _ => []
+
+def elemOf (j : Json) : ElemG :=
+  { typ := (getStr j "typ").getD "", quals := pairsOf qvalOf (getField j "quals") }
+
+def methodsOf (j : Json) : List (List Char × MethodG) :=
+  match j with
+  | .arr a => a.toList.filterMap (fun p => match p with
+      | .arr q => match q.toList with
+        | n :: r :: ps :: _ => (jsonToChars? n).map (fun nm => (nm, { ret := elemOf r, params := pairsOf elemOf ps }))
+        | _ => none
+      | _ => none)
+  | _ => []
+
+def excOf (j : Json) : PyExc :=
+  match getStr j "exc" with
+  | some "CIMError" => .cimError ((getNat j "code").getD 0)
+  | some "ConnectionError" => .connectionError
+  | some "TimeoutError" => .timeoutError
+  | some "AuthError" => .authError
+  | some "HTTPError" => .httpError
+  | _ => .osError
+
+def scalarOf (j : Json) : Scalar :=
+  match j with
+  | .null => .none
+  | .str _ => .other
+  | j =>
+    match getInt j "int", getInt j "cimint", getBool j "bool", getChars j "str" with
+    | some v, _, _, _ => .int v
+    | _, some v, _, _ => .cimint v
+    | _, _, some b, _ => .bool b
+    | _, _, _, some s => .str s
+    | _, _, _, _ => .other
+
+def argOf (j : Json) : Arg :=
+  match getField j "list" with
+  | .arr a => .list (a.toList.map scalarOf)
+  | _ => .scalar (scalarOf j)
+
+def retToJson : Ret → Json
+  | .none => Json.null
+  | .str s => cpsToJson s
+  | .list xs => Json.mkObj [("list", Json.arr (xs.map cpsToJson).toArray)]
+
+def handleApi (j : Json) : Json :=
+  let cj := getField j "cls"
+  let getClass : Except PyExc ClassG :=
+    match getStr cj "exc" with
+    | some _ => .error (excOf cj)
+    | none => .ok { props := pairsOf elemOf (getField cj "props"), methods := methodsOf (getField cj "methods") }
+  let names := (getArr j "names").filterMap jsonToChars?
+  let n0 := names.getD 0 []
+  let n1 := names.getD 1 []
+  let vd := getChars j "vd"
+  let vs := (getArr j "vs").filterMap jsonToInt?
+  let strs := (getArr j "strs").filterMap jsonToChars?
+  let args := (getArr j "args").map argOf
+  let tbargs := (getArr j "tbargs").map scalarOf
+  let scan : Option (Int × Nat) :=
+    match (getArr j "scan").filterMap jsonToInt? with
+    | [lo, hi] => some (lo, (hi - lo + 1).toNat)
+    | _ => none
+  let call := (getStr j "call").getD "property"
+  let res : Except PyExc VM :=
+    if call == "property" then forProperty getClass n0 vd
+    else if call == "method" then forMethod getClass n0 vd
+    else forParameter getClass n0 n1 vd
+  -- the element the spec is evaluated on (only when it is found and carries string arrays)
+  let el? : Option ElemG :=
+    match getClass with
+    | .error _ => none
+    | .ok c =>
+      if call == "property" then ncGet c.props n0
+      else if call == "method" then (ncGet c.methods n0).map (·.ret)
+      else (ncGet c.methods n0).bind (fun m => ncGet m.params n1)
+  let modelPart : List (String × Json) :=
+    match res with
+    | .error x => [("exc", Json.str x.name)] ++ (match x with | .cimError c => [("code", (c : Json))] | _ => [])
+    | .ok vm =>
+      [("ok", Json.mkObj [
+        ("items", Json.arr ((items vm).map (fun (b, s) => Json.arr #[binToJson b, cpsToJson s])).toArray),
+        ("tv", Json.arr (vs.map (fun v => outToJson (tovalues vm v))).toArray),
+        ("scan", match scan with
+                 | some (lo, n) => Json.arr (scanRLE (tovalues vm) lo n)
+                 | none => Json.null),
+        ("tb", Json.arr (strs.map (fun s => match tobinary vm s with
+                 | .ok b => Json.mkObj [("b", binToJson b)]
+                 | .error x => x.toJson)).toArray),
+        ("args", Json.arr (args.map (fun a => match tovaluesArg vm a with
+                 | .ok r => retToJson r
+                 | .error x => x.toJson)).toArray),
+        ("tbargs", Json.arr (tbargs.map (fun a => match tobinaryArg vm a with
+                 | .ok b => Json.mkObj [("b", binToJson b)]
+                 | .error x => x.toJson)).toArray)])]
+  let specPart : Json :=
+    match el? with
+    | none => Json.null
+    | some el =>
+      let q := el.toQ
+      match q.values, q.valuemap with
+      | some none, _ => Json.null
+      | _, some none => Json.null
+      | v, m =>
+        match Spec.specCreate ⟨q.typ, v.bind id, m.bind id⟩ vd with
+        | .error x => x.toJson
+        | .ok (ents, values) =>
+          Json.mkObj [
+            ("ents", Json.arr (ents.map (fun en => binToJson (Spec.entBin en))).toArray),
+            ("tv", Json.arr (vs.map (fun v => outToJson (Spec.specToValues ents values v))).toArray),
+            ("scan", match scan with
+                     | some (lo, n) => Json.arr (scanRLE (Spec.specToValues ents values) lo n)
+                     | none => Json.null)]
+  Json.mkObj (modelPart ++ [("spec", specPart)])
+
+/-! vmI op: _create_for_element on a ValueMap array with NULL items.
+  {"op":"vmI","typ":str,"values":[cps,…],"valuemap":[cps|null,…],"vd":cps|null} -> {"exc":name} | {"ok":n_items} -/
+def handleVmI (j : Json) : Json :=
+  let typ := (getStr j "typ").getD ""
+  let values := (getArr j "values").filterMap jsonToChars?
+  let vmap : List Item := (getArr j "valuemap").map jsonToChars?
+  match createI typ values vmap (getChars j "vd") with
+  | .error x => x.toJson
+  | .ok vm => Json.mkObj [("ok", ((items vm).length : Json))]
+
 def handle (j : Json) : Json :=
   match getStr j "op" with
   | some "intlit" =>
@@ -90,6 +240,8 @@ def handle (j : Json) : Json :=
     | some s => Json.mkObj [("v", optToJson intToJson (integerValueToInt s))]
     | none => Json.mkObj [("bad", "s")]
   | some "vm" => handleVm j
+  | some "api" => handleApi j
+  | some "vmI" => handleVmI j
   | _ => Json.mkObj [("bad", "op")]
 
 def main : IO Unit := runDriver handle
